@@ -190,6 +190,13 @@ func evaluate(c Case, cat string) *Finding {
 		data = applyEdits(base, c.Edits)
 	}
 	mutated := c.Hex != "" || len(c.Edits) > 0 && !(len(data) == len(base) && string(data) == string(base))
+	if mutated && c.Target == "" && ev.Known(genReaders) && damagedBigLayoutTable(base, data) {
+		// value class of the listed finding (see genReaders): not generated while it is open,
+		// because such a case can make the process run out of memory instead of being measured
+		ev.Excluded(genReaders)
+		ev.Label("excluded:big_layout_table_damaged")
+		return nil
+	}
 	ev.Journal(checkName, c)
 	var out outcome
 	switch c.Target {
@@ -230,6 +237,42 @@ func evaluate(c Case, cat string) *Finding {
 		return f
 	}
 	return nil
+}
+
+// bigLayoutTable is the size above which a damaged layout table is not fed to the loader while
+// the finding genReaders is listed as open (quadratic growth: 32 KiB can demand at most ~100 MiB).
+const bigLayoutTable = 32 << 10
+
+var nestedOffsetTables = map[string]bool{"GSUB": true, "GPOS": true, "GDEF": true, "morx": true, "kerx": true, "CBLC": true, "EBLC": true, "bloc": true}
+
+// damagedBigLayoutTable is the structural matcher of the input class of genReaders: the mutant has
+// a table read by the nested-offset generated readers that is larger than bigLayoutTable and is
+// not byte-identical to the table with the same tag of the pristine font.
+func damagedBigLayoutTable(base, data []byte) bool {
+	if len(data) <= bigLayoutTable {
+		return false
+	}
+	lm := parseLayout(data)
+	var lb *layout
+	for _, t := range lm.Tables {
+		if !nestedOffsetTables[t.Tag] || t.Len <= bigLayoutTable || lm.Kind == "woff" {
+			continue
+		}
+		if lb == nil {
+			lb = parseLayout(base)
+		}
+		same := false
+		for _, o := range lb.Tables {
+			if o.Tag == t.Tag && o.Font == t.Font && o.Len == t.Len && string(base[o.Off:o.Off+o.Len]) == string(data[t.Off:t.Off+t.Len]) {
+				same = true
+				break
+			}
+		}
+		if !same {
+			return true
+		}
+	}
+	return false
 }
 
 // collector lets enumerators search behind the first finding: violations are collected per site
